@@ -1448,6 +1448,42 @@ def f_metrics(tier="quick", seed=0):
     return specs
 
 
+def f_metrics_nonloop_format():
+    """C12 only: a buffer binding whose format has a rank order that is not the one the tensor is iterated in
+    (A iterated as [M, K]; format csc has the rank order [K, M])"""
+    from . import spec as S
+
+    def fmt_a():
+        y = "  A:\n"
+        for nm, ranks in (("csr", ["M", "K"]), ("csc", ["K", "M"])):
+            y += "    %s:\n      rank-order: [%s]\n" % (nm, ", ".join(ranks))
+            for r in ranks:
+                y += "      %s:\n        format: C\n        cbits: 32\n        pbits: 64\n" % r
+        return y
+    head = "format:\n" + fmt_a()
+    head += ("architecture:\n  Acc:\n  - name: System\n    attributes:\n      clock_frequency: 101\n    local:\n"
+             "    - name: Mem\n      class: DRAM\n      attributes:\n        bandwidth: 211\n    subtree:\n"
+             "    - name: PE[0..2]\n      local:\n      - name: Buf\n        class: Buffet\n        attributes:\n          width: 64\n          depth: 1024\n")
+    out = []
+    for fk, fm in (("csr", "csr"), ("csr", "csc"), ("csc", "csc")):
+        b = ("bindings:\n  Z:\n  - config: Acc\n    prefix: tmp/Z\n  - component: Mem\n    bindings:\n"
+             "    - tensor: A\n      rank: K\n      type: coord\n      format: %s\n    - tensor: A\n      rank: M\n      type: coord\n      format: %s\n"
+             "  - component: Buf\n    bindings:\n"
+             "    - tensor: A\n      rank: K\n      type: coord\n      format: %s\n      evict-on: root\n      style: lazy\n"
+             "    - tensor: A\n      rank: M\n      type: coord\n      format: %s\n      evict-on: root\n      style: lazy\n" % (fk, fm, fk, fm))
+        secs = S.split_sections(head + b)
+        tags = {"family": "metrics", "template": "nonloop-format", "leader_first": True}
+        if (fk, fm) != ("csr", "csr"):
+            tags["nonloop_format"] = True
+        out.append({"name": "metrics/nonloop-format/K=%s,M=%s" % (fk, fm), "decl": {"A": ["K", "M"], "B": ["K"], "Z": ["M"]},
+                    "exprs": ["Z[m] = A[k, m] * B[k]"],
+                    "mapping": {"rank-order": {"A": ["M", "K"]}, "loop-order": {"Z": ["M", "K"]},
+                                "spacetime": {"Z": {"space": [], "time": ["M", "K"]}}},
+                    "extents": {"K": 2, "M": 2}, "sizes": {}, "arch": secs["architecture"], "bindings": secs["bindings"],
+                    "format": secs["format"], "tags": tags})
+    return out
+
+
 # ---------------------------------------------------------------- F-rand
 RAND_TEMPLATES = [
     ({"A": ["K", "M"], "B": ["K", "N"], "Z": ["M", "N"]}, ["Z[m, n] = A[k, m] * B[k, n]"]),
